@@ -17,7 +17,9 @@ META = {'assumptions': ['the emitted text is turned back into a mapping by the Y
 
 ROLES = ['r0', 'r1', 'r2']
 CREDS = [{'roles': s, 'project_id': 'p'} for s in gen.subsets(ROLES)]
-STR_VALUES = ['role:r0', 'role:r1 or role:r2', 'not role:r0', '@', '!', '', 'role:r0 and (role:r1 or role:r2)', "role:r2 or 'x':%(k)s",
+LONG_A = 'role:r0 or (role:r1 and role:r2) or (role:r2 and not role:r0 and role:r1) or rule:helper or role:r1 or role:r2 or role:r0'
+LONG_B = "(role:r0 and role:r1) or (role:r1 and 'x':%(k)s and not role:r2) or (role:r2 and role:r0 and role:r1 and role:r2)"
+STR_VALUES = [LONG_A, LONG_B, 'role:r0', 'role:r1 or role:r2', 'not role:r0', '@', '!', '', 'role:r0 and (role:r1 or role:r2)', "role:r2 or 'x':%(k)s",
               'role:r1 or "dq":%(k)s', 'role:r0 or a\\b:%(k)s', 'rule:helper', 'role:r1 and rule:helper']
 LIST_VALUES = [[['role:r0']], [['role:r0', 'role:r1'], ['role:r2']], [], ['role:r1'], [['role:r0'], 'role:r2'], [[]], [[], []], [''],
                [[], ['role:r1']], [['@', 'role:r0']], ['!', ['role:r2']]]
@@ -28,15 +30,15 @@ def default_sets(rng):
     kind = rng.choice(['plain', 'renamed', 'split', 'changed', 'mixed'])
     regs = [{'name': 'helper', 'check_str': 'role:r2'}]
     if kind in ('plain', 'mixed'):
-        regs += [{'name': 'svc:a', 'check_str': rng.choice(STR_VALUES[:7])}, {'name': 'svc:b', 'check_str': rng.choice(STR_VALUES[:7])}]
+        regs += [{'name': 'svc:a', 'check_str': rng.choice(STR_VALUES[:9])}, {'name': 'svc:b', 'check_str': rng.choice(STR_VALUES[:9])}]
     if kind in ('renamed', 'mixed'):
-        regs.append({'name': 'svc:new1', 'check_str': rng.choice(STR_VALUES[:7]), 'deprecated': ('svc:old1', rng.choice(STR_VALUES[:7]))})
+        regs.append({'name': 'svc:new1', 'check_str': rng.choice(STR_VALUES[:9]), 'deprecated': ('svc:old1', rng.choice(STR_VALUES[:9]))})
     if kind in ('split', 'mixed'):
-        oldc = rng.choice(STR_VALUES[:7])
+        oldc = rng.choice(STR_VALUES[:9])
         for i in range(rng.randint(2, 3)):
-            regs.append({'name': 'svc:part%d' % i, 'check_str': rng.choice(STR_VALUES[:7]), 'deprecated': ('svc:whole', oldc)})
+            regs.append({'name': 'svc:part%d' % i, 'check_str': rng.choice(STR_VALUES[:9]), 'deprecated': ('svc:whole', oldc)})
     if kind in ('changed', 'mixed'):
-        regs.append({'name': 'svc:same', 'check_str': rng.choice(STR_VALUES[:7]), 'deprecated': ('svc:same', rng.choice(STR_VALUES[:7]))})
+        regs.append({'name': 'svc:same', 'check_str': rng.choice(STR_VALUES[:9]), 'deprecated': ('svc:same', rng.choice(STR_VALUES[:9]))})
     return kind, regs
 
 
